@@ -24,6 +24,26 @@ def make_array(spec):
         from molgri.space.fullgrid import FullGrid
         with quiet():
             return np.array(FullGrid(*spec["grid"]).get_full_grid_as_array(), dtype=float)
+    if spec["kind"] in ("grid-rows", "repeats"):
+        # arrays whose quaternions repeat, but NOT in the periodic layout of a full grid: a full-grid array with rows
+        # removed and re-ordered, or a handful of quaternions repeated irregularly at random positions
+        rng = np.random.default_rng(spec["seed"])
+        if spec["kind"] == "grid-rows":
+            from molgri.space.fullgrid import FullGrid
+            with quiet():
+                full = np.array(FullGrid(*spec["grid"]).get_full_grid_as_array(), dtype=float)
+            keep = rng.random(len(full)) < 0.7
+            keep[:2] = [False, True]
+            arr = full[keep]
+            if spec.get("shuffle", True):
+                arr = arr[rng.permutation(len(arr))]
+            return arr
+        M = spec["M"]
+        base = rng.normal(size=(4, 4))
+        base /= np.linalg.norm(base, axis=1)[:, None]
+        q = base[rng.integers(0, 4, M)]
+        q[0], q[1] = base[0], base[0]
+        return np.concatenate([rng.normal(0, 5.0, (M, 3)), q], axis=1)
     rng = np.random.default_rng(spec["seed"])
     M = spec["M"]
     pos = rng.normal(0, 5.0, (M, 3))
@@ -76,6 +96,10 @@ def evaluate(spec):
     arr0 = arr.copy()
     M = len(arr)
     centre2 = spec.get("centre2", True)
+    if spec.get("raw_first"):
+        # history of the reader: the same files were read un-centred earlier in this process
+        molutil.load(spec["m1"], center=False)
+        molutil.load(spec["m2"], center=False)
     m1 = molutil.load(spec["m1"])
     m2 = molutil.load(spec["m2"], center=centre2)
     X1 = m1.atoms.positions.astype(float)
@@ -192,6 +216,12 @@ def specs_for(tier, seed):
         a, b = PAIRS[gi % len(PAIRS)]
         specs.append({"m1": a, "m2": b, "kind": "grid", "grid": g, "api": ("universe", "generator")[gi % 2], "centre2": True})
     specs.append({"m1": "H2O", "m2": "H2O", "kind": "random", "M": 1, "seed": [seed, 103, 0], "api": "universe", "centre2": True})
+    # non-periodic repeats of quaternions, and reader histories (raw read of the same file earlier in the process)
+    specs.append({"m1": "H2O", "m2": "NH3", "kind": "grid-rows", "grid": ["8", "7", "[0.3, 0.6]"], "seed": [seed, 104, 0], "api": "generator", "centre2": True})
+    specs.append({"m1": "NA", "m2": "GLUCOSE", "kind": "grid-rows", "grid": ["cube4D_9", "ico_5", "[0.2, 0.4, 0.9]"], "seed": [seed, 105, 0], "api": "universe", "centre2": True, "shuffle": False})
+    specs.append({"m1": "H2O", "m2": "CHFCLBR", "kind": "repeats", "M": 50, "seed": [seed, 106, 0], "api": "universe", "centre2": True})
+    specs.append({"m1": "GLUCOSE", "m2": "NH3", "kind": "repeats", "M": 30, "seed": [seed, 107, 0], "api": "generator", "centre2": True, "raw_first": True})
+    specs.append({"m1": "H2O", "m2": "GLUCOSE", "kind": "random", "M": 30, "seed": [seed, 108, 0], "api": "universe", "centre2": True, "raw_first": True})
     return specs
 
 
